@@ -10,7 +10,6 @@ CUT_STUB = "BlockData::try_reconstruct_slice"
 # SliceCommitment == is a 49-byte memcmp
 CBMC = ["--unwindset", "memcmp.0:51"]
 
-COLL = {"src": "verif_coll.rs", "dest": "src/verif_coll.rs", "decl_in": "src/lib.rs", "decl": "pub mod verif_coll;"}
 LEAKMAP = {"src": "C12/kani_c12_coll.rs", "dest": "src/verif_leakmap.rs", "decl_in": "src/lib.rs", "decl": "pub mod verif_leakmap;"}
 SHARED_OVERLAYS = [
     {"src": "C15/kani_merkle.rs", "dest": "src/crypto/merkle/kani_merkle.rs", "decl_in": "src/crypto/merkle.rs", "decl": "mod kani_merkle;"},
@@ -25,14 +24,9 @@ def redirect(file, line, repl):
             "replacement": "#[cfg(not(kani))]\n" + line + "\n#[cfg(kani)]\n" + repl, "count": 1}
 
 
-SHREDS_FIELD = "    pub(super) shreds: BTreeMap<SliceIndex, [Option<ValidatedShred>; TOTAL_SHREDS]>,"
-SHREDS_INIT = "            shreds: BTreeMap::new(),"
 REDIRECTS = [
-    redirect(SBD, "use std::collections::BTreeMap;", "use crate::verif_coll::BTreeMap;"),
-    redirect(SBD, "use std::collections::btree_map::Entry;", "use crate::verif_coll::btree_map::Entry;"),
-    # the one big-valued map of BlockData: boxed, leak-on-overwrite stand-in (see kani_c12_coll.rs)
-    dict(redirect(SBD, SHREDS_FIELD, SHREDS_FIELD.replace("BTreeMap<", "crate::verif_leakmap::BoxMap<")), required=True),
-    dict(redirect(SBD, SHREDS_INIT, SHREDS_INIT.replace("BTreeMap::new()", "crate::verif_leakmap::BoxMap::new()")), required=True),
+    redirect(SBD, "use std::collections::BTreeMap;", "use crate::verif_leakmap::BTreeMap;"),
+    redirect(SBD, "use std::collections::btree_map::Entry;", "use crate::verif_leakmap::btree_map::Entry;"),
 ]
 
 Q, T = ["quick", "thorough"], ["thorough"]
@@ -68,20 +62,19 @@ def _equiv(name, what, tiers, covers, role):
 
 SPEC = {
     "property": "C12",
-    "level_text": "Bounded symbolic verification of the real shred validation and commitment code. (1) SliceCommitment::new has exactly the documented 49-byte layout and is injective in (slot, slice index, last flag, root). (2) One ValidatedShred::try_new on an arbitrary shred (every header field, tag, payload, position and Merkle path element attacker-chosen) against an honest slice in the documented tree shape, with an arbitrary signature and an arbitrary cached commitment: the solver shows that the shred is accepted iff an identical commitment is cached or the given leader key signed exactly slot || slice index || last flag || derived root; that Equivocation is returned iff a different commitment is cached and the leader signed this one too; that the cached path never accepts a different commitment and never skips verification otherwise; and that under the honest commitment only the honest payload at its own index with the honest header passes (replay under another slot / slice / flag / index and any alteration are rejected). (3) Two validated shreds through BlockData::add_shred in both arrival orders: conflicting commitments for one slice index are reported as Equivocation and nothing of the second is stored. The data/coding tag and the contradictory last-slice marker cases are separate harnesses (genuine findings, see known findings). Sampling cannot enumerate header/path/cache/signature combinations; the solver covers all of them inside the bounds. Not a proof: Merkle paths of at most 3 elements over slices of at most 4 shreds, 2-byte payloads.",
-    "level_note": "Assumes SHA-256 is collision-free and consistent with the EMPTY_ROOTS constants (oracle stub) and Ed25519 is an ideal signature scheme (verifies iff that key signed exactly those bytes; oracle stub at ed25519_zebra::VerificationKey::verify, alpenglow's verify_bytes stays real); counterexamples are replayed with real SHA-256 and real keys. Scaled model: slices of 1..4 shreds / paths of 0..3 elements stand for 64 shreds / 6 elements, the shred index ranges over the width of the honest tree (as ShredIndex < TOTAL_SHREDS does). Blockstore harnesses: std BTreeMap of slot_block_data.rs replaced by a bounded array map (verif_coll's, values leaked instead of dropped) under Kani, log level pinned to Off, Reed-Solomon never reached (2 shreds < 32). Trusts Kani's MIR translation, CBMC, CaDiCaL; pointer-validity checks off.",
+    "level_text": "Bounded symbolic verification of the real shred validation and commitment code. (1) SliceCommitment::new has exactly the documented 49-byte layout and is injective in (slot, slice index, last flag, root). (2) One ValidatedShred::try_new on an arbitrary shred (every header field, tag, payload, position and Merkle path element attacker-chosen) against an honest slice in the documented tree shape, with an arbitrary signature and an arbitrary cached commitment: the solver shows that the shred is accepted iff an identical commitment is cached or the given leader key signed exactly slot || slice index || last flag || derived root; that Equivocation is returned iff a different commitment is cached and the leader signed this one too; that the cached path never accepts a different commitment and never skips verification otherwise; and that under the honest commitment only the honest payload at its own index with the honest header passes (replay under another slot / slice / flag / index and any alteration are rejected). (3) Two validated shreds through BlockData::add_shred (up to, not including, slice reconstruction) in both arrival orders: conflicting commitments for one slice index are reported as Equivocation exactly when they differ and nothing of the second is stored; for different slice indices Equivocation is reported only for contradictory last-slice markers and always then, except in one input class. Three genuine defects are isolated in harnesses of their own, which FAIL on /repo: c12_tag_m1_k0 (the data/coding tag is bound neither by the signature nor by the Merkle leaf: a tag-flipped shred of a correct leader validates and gets that leader flagged), c12_lastorder (a last-slice marker below an already received slice is not reported in the arrival order 'higher slice first': the stored slice is dropped silently and FirstShred is announced a second time), c12_lastcache (the commitment of a shred rejected as equivocation stays cached). Sampling cannot enumerate header/path/cache/signature combinations; the solver covers all of them inside the bounds. Not a proof: Merkle paths of at most 3 elements over slices of at most 4 shreds, 2-byte payloads.",
+    "level_note": "Assumes SHA-256 is collision-free and consistent with the EMPTY_ROOTS constants (oracle stub) and Ed25519 is an ideal signature scheme (verifies iff that key signed exactly those bytes; oracle stub at ed25519_zebra::VerificationKey::verify, alpenglow's verify_bytes stays real); counterexamples are replayed with real SHA-256 and real keys. Scaled model: slices of 1..4 shreds / paths of 0..3 elements stand for 64 shreds / 6 elements, the shred index ranges over the width of the honest tree (as ShredIndex < TOTAL_SHREDS does). Blockstore harnesses: std BTreeMap of slot_block_data.rs replaced by a bounded array map (capacity 3, boxed values, leaked instead of dropped) under Kani, log level pinned to Off, BlockData::try_reconstruct_slice cut to its 'not enough shreds' exit (2 shreds < 32; the real function walks the 64-entry shred array five times and alone exceeds the symbolic-execution budget: measured > 15 min). Trusts Kani's MIR translation, CBMC, CaDiCaL; pointer-validity checks off.",
     "design_ref": "DESIGN.md §4 C12",
     "overlays": SHARED_OVERLAYS + [
-        COLL, LEAKMAP,
+        LEAKMAP,
         {"src": "C12/kani_c12.rs", "dest": "src/shredder/kani_c12.rs", "decl_in": "src/shredder.rs", "decl": "pub(crate) mod kani_c12;"},
         {"src": "C12/kani_c12_bs.rs", "dest": "src/consensus/blockstore/slot_block_data/kani_c12_bs.rs", "decl_in": SBD, "decl": "mod kani_c12_bs;"},
     ],
     "redirects": REDIRECTS,
-    "coll_cap": 3,
     "functions": [
         "shredder::SliceCommitment::new", "shredder::validated_shred::ValidatedShred::{try_new,commitment,slice_root,new_validated}", "shredder::Shred::{slice_root,payload,is_data,is_coding}",
         "crypto::merkle::MerkleTree::{derive_root,derive_hash_root,hash_leaf,hash_pair} (instantiation SliceMerkleTree)", "crypto::signature::Signature::verify_bytes",
-        "consensus::blockstore::slot_block_data::BlockData::{new,add_shred,mark_last_slice,try_reconstruct_slice (up to the NotEnoughShreds exit)}", "shredder::Shredder::deshred (up to the NotEnoughShreds exit)", "shredder::validated_shreds::ValidatedShreds::{try_new,shred_count}",
+        "consensus::blockstore::slot_block_data::BlockData::{new,add_shred,mark_last_slice}",
     ],
     "bounds": "honest slices of 1..=4 shreds with 2-byte payloads, Merkle paths of 0..=3 elements, one validation call; blockstore: two shreds (shred indices 0 and 1) of arbitrary slice indices / flags / payloads on a fresh BlockData",
     "explanation": "Bounded symbolic verification (Kani -> CBMC -> CaDiCaL) of the real code compiled from /repo's working tree. Validation harnesses: one harness per (honest slice size, path length); the reference commitment bytes and the reference root derivation are written from the documentation, the acceptance condition is the property statement. Blockstore harnesses: a symmetric pair of validated shreds added to a fresh BlockData, compared with a symmetric 'contradicts' predicate, so every arrival order is covered.",
@@ -90,25 +83,25 @@ SPEC = {
         "Ed25519 is an ideal signature scheme: verification succeeds iff the named key signed exactly the presented bytes (no forgery, no malleability that changes the message); the leader key is the one the caller passes",
         "scaled dimensions: slices of 1..=4 shreds and paths of 0..=3 elements; the shred index ranges over the width of the honest tree (in /repo: ShredIndex < 64 = width of the 64-leaf tree)",
         "payloads of exactly 2 bytes (an honest shred is never empty)",
-        "blockstore harnesses: bounded array map instead of std BTreeMap inside slot_block_data.rs under Kani (<= 3 live entries), log::max_level() == Off, the RegularShredder object is never touched before the NotEnoughShreds exit",
+        "blockstore harnesses: bounded array map instead of std BTreeMap inside slot_block_data.rs under Kani (<= 3 live entries); log::max_level() == Off; BlockData::try_reconstruct_slice replaced by its 'nothing to do / not enough shreds' exit (two well-formed data shreds stored, Reed-Solomon needs 32), the request is logged and checked; both shreds are data shreds at shred indices 0 and 1",
         "pointer-validity checks of CBMC are off; Rust panics, overflow and unwinding assertions stay on",
     ],
-    "trusted_base": ["hash oracle (verif_std::hash_oracle + kani_merkle::hash_all_oracle)", "Ed25519 ideal-functionality oracle (kani_c12_sig::oracle)", "RefTree / ref_derive / ref_commit_bytes written from the documentation", "bounded array map stand-in (C12/kani_c12_coll.rs: verif_coll::BTreeMap with leak-on-overwrite, capacity 3)"],
+    "trusted_base": ["hash oracle (verif_std::hash_oracle + kani_merkle::hash_all_oracle)", "Ed25519 ideal-functionality oracle (kani_c12_sig::oracle)", "RefTree / ref_derive / ref_commit_bytes written from the documentation", "bounded array map stand-in (C12/kani_c12_coll.rs: verif_coll::BTreeMap's shape with boxed values and leak-on-overwrite, capacity 3)", "cut of BlockData::try_reconstruct_slice (kani_c12_bs::cut)"],
     "outside": [
         "Merkle paths longer than 3 elements, slices wider than 4 shreds (the real 64-shred / 6-element dimension)", "payload lengths other than 2 bytes",
-        "deshredding after acceptance (Reed-Solomon), ValidatedShreds layout checks on >= 32 shreds", "the async Blockstore wrapper (tokio channel): InvalidBlock emission / leader_misbehaved gate",
+        "slice reconstruction after a shred is stored: BlockData::try_reconstruct_slice, Shredder::deshred, ValidatedShreds::try_new, Reed-Solomon (the consequence of the tag defect - InvalidLayout -> InvalidShred -> leader flagged - is demonstrated natively by the test c12_demo_tag_flip in kani_c12_bs.rs, not by a solver harness)", "more than two shreds per block, coding shreds, duplicates (same shred index) in the blockstore harnesses", "the async Blockstore wrapper (tokio channel): InvalidBlock emission / leader_misbehaved gate",
         "Ed25519 and SHA-256 themselves",
     ],
     "harnesses": [
         {"name": "c12_commit_inj", "path": SH_MOD, "tiers": Q, "role": "commitment layout and injectivity", "functions": ["SliceCommitment::new", "SliceCommitment::as_ref", "SliceCommitment::eq"],
          "bounds": "two arbitrary (slot u64, slice index < 1024, last flag, 32-byte root) tuples", "covers": 2, "cbmc_args": CBMC},
-        _validate(1, 0, Q), _validate(2, 1, Q), _validate(3, 2, Q),
+        _validate(1, 0, Q), _validate(2, 1, Q), _validate(3, 2, T),
         _validate(1, 1, T), _validate(2, 0, T), _validate(2, 2, T), _validate(3, 1, T), _validate(4, 2, T), _validate(3, 3, T),
         {"name": "c12_tag_m1_k0", "path": SH_MOD, "tiers": Q, "role": "data/coding tag binding", "functions": VALIDATE_FUNCS + ["Shred::{is_data,is_coding}"],
          "bounds": "the honest leader's shred at index 0 of a one-shred slice, genuine signature, no cache; tag attacker-chosen", "stubs": [HASH_STUB, SIG_STUB], "covers": 1, "cbmc_args": CBMC},
         _equiv("c12_equiv_same", "B carries A's slice index (conflicting slices); A and B symmetric, so both arrival orders of every pair are covered", Q, 3, "blockstore equivocation/same slice"),
         _equiv("c12_equiv_last", "A and B carry different slice indices (last-slice markers); A and B symmetric, so both arrival orders are covered; the class 'A not last, B last at a lower index' is excluded from the completeness direction here and checked by c12_lastorder", Q, 4, "blockstore equivocation/last-slice markers"),
         _equiv("c12_lastorder", "A not marked last, B marked last at a lower slice index (arrival order 'higher slice first')", Q, 1, "blockstore equivocation/last-slice marker below a received slice"),
-        _equiv("c12_lastcache", "A marked last, B any other slice index", Q, 1, "blockstore equivocation/rejected commitment cached"),
+        _equiv("c12_lastcache", "A marked last, B any other slice index", T, 1, "blockstore equivocation/rejected commitment cached"),
     ],
 }
